@@ -431,7 +431,7 @@ func c03extra(c *strict, w *sim.World, s *sim.Step) *Viol {
 		return nil
 	}
 	// failure: no effective mint, nonce not consumed (stores unchanged is checked by unchanged())
-	if ledgerInt(s.PostLed, "minted/"+w.Model.L.Denom).Cmp(ledgerInt(s.PreLed, "minted/"+w.Model.L.Denom)) != 0 {
+	if ledgerInt(s.PostLed, "minted/"+w.Model.L.NDenom()).Cmp(ledgerInt(s.PreLed, "minted/"+w.Model.L.NDenom())) != 0 {
 		return viol("C03", s.Idx, "failed receive minted", "no mint", "minted total changed")
 	}
 	return nil
@@ -502,7 +502,7 @@ func c08extra(c *strict, w *sim.World, s *sim.Step) *Viol {
 }
 
 var C08 = register(&HistProp{ID: "C08",
-	Genesis: func(t *rapid.T) *sim.GenSpec { return sim.DrawGenesis(t, sim.GenOpts{BigBalances: true}) },
+	Genesis: func(t *rapid.T) *sim.GenSpec { return sim.DrawGenesis(t, sim.GenOpts{BigBalances: true, MixedDenom: true}) },
 	Next: func(g *sim.G, i int) *sim.Op {
 		return Mix{Dep: 14, Admin: 5, Ledger: 2, DepValid: 45, AdminHolder: 92, FaultPct: 6,
 			AdminTypes: []string{"SetMaxBurnAmountPerMessage", "SetMaxBurnAmountPerMessage", "UpdateMaxMessageBodySize", "AddRemoteTokenMessenger", "RemoveRemoteTokenMessenger",
